@@ -65,6 +65,11 @@ class Property(Base):
                 packed = int(c.split(" ; ")[1].strip(), 16)
                 hi, lo = packed >> 32, packed & 0xffffffff
                 bi, bs = i.split(" ", 1)[1], s.split(" ", 1)[1]
+                if bi == "TRAP" and not bs.startswith("TRAP"):
+                    # the same unconditional copy of a REJECTED write, out of range: the source [ptr,ptr+len) reaches past the guest's
+                    # 64 KiB memory (or the destination past the provider's), so the copy the ABI says must not happen traps
+                    ptr = int(p[3].split(",")[0], 16)
+                    return hi != 0 and length > 0 and (ptr + length > 65536 or lo + length > 65536)
                 if not (hi != 0 and length > 0 and bi.startswith("RET") and bi.split(" P ")[0] == bs.split(" P ")[0]
                         and bi.split(" LOG ")[1] == bs.split(" LOG ")[1]):
                     return False
